@@ -164,6 +164,7 @@ fn run_inc<T: State>(
     stdin: &str,
     max: usize,
 ) -> String {
+    let base = state.get_all_code().len();
     let mut ipt = Lines::new(stdin);
     let mut out = Tagged::new("O");
     let mut err = Tagged::new("E");
@@ -185,7 +186,7 @@ fn run_inc<T: State>(
         }
         out.flush().unwrap();
         err.flush().unwrap();
-        println!("T {} {}", n + 1, enc_state(&mut state));
+        println!("T {} {}", base + n + 1, enc_state(&mut state));
         n += 1;
     }
     "ok".to_string()
@@ -232,6 +233,7 @@ fn run_opt(prog: Vec<UnOptCode>, level: u8, stdin: &str, max: usize) -> String {
         println!("E {}", enc_text(&o));
     }
     state.get_stack(2).clear();
+    println!("P");
     run_inc(state, code, stdin, max)
 }
 
